@@ -211,6 +211,7 @@ type Want struct {
 	Rec     *MRec  // get/put/cas result
 	Recs    []*MRec
 	Keys    []string // list result, sorted
+	All     []string // list: every present key
 	Skip    bool     // operation not applicable in this state (e.g. stale version unknown)
 	StoredV int      // create on present key: token of the stored version
 }
@@ -266,6 +267,7 @@ func (m *Model) Apply(o Op, d0 *Driver) Want {
 		g := glob.MustCompile(o.Pat)
 		w := Want{Err: "nil", Keys: []string{}}
 		for k := range m.Recs {
+			w.All = append(w.All, k)
 			if g.Match(k) {
 				w.Keys = append(w.Keys, k)
 			}
@@ -279,6 +281,11 @@ func (m *Model) Apply(o Op, d0 *Driver) Want {
 // Exec runs op on the implementation and compares with want. pre is the model
 // state BEFORE the op for the keys it touches (needed for version arguments).
 func (d *Driver) Exec(o Op, w Want) (clause, detail string) {
+	defer func() {
+		if r := recover(); r != nil {
+			clause, detail = d.Name+" "+o.Target()+":panic", fmt.Sprintf("%s %v panicked: %v", d.Name, o, r)
+		}
+	}()
 	ctx := context.Background()
 	bad := func(cl, f string, a ...any) (string, string) {
 		return d.Name + " " + o.Target() + ":" + cl, fmt.Sprintf("%s %v: ", d.Name, o) + fmt.Sprintf(f, a...)
@@ -405,7 +412,41 @@ func (d *Driver) Exec(o Op, w Want) (clause, detail string) {
 		it.Close()
 		sort.Strings(got)
 		if fmt.Sprint(got) != fmt.Sprint(w.Keys) {
-			return bad("keys", "returned %q, present keys matching the pattern are %q", got, w.Keys)
+			// signature: which kind of key is extra / missing (a slash-prefixed key and its stripped alias are
+			// kinds of their own, so that the known key-mapping finding does not hide other ListKeys defects)
+			class := map[string]bool{}
+			in := func(l []string, k string) bool {
+				for _, x := range l {
+					if x == k {
+						return true
+					}
+				}
+				return false
+			}
+			for _, k := range got {
+				if !in(w.Keys, k) {
+					if in(w.All, "/"+k) {
+						class["extra:stripped-alias"] = true
+					} else {
+						class["extra:plain"] = true
+					}
+				}
+			}
+			for _, k := range w.Keys {
+				if !in(got, k) {
+					if strings.HasPrefix(k, "/") {
+						class["missing:slash-key"] = true
+					} else {
+						class["missing:plain"] = true
+					}
+				}
+			}
+			var cs []string
+			for c := range class {
+				cs = append(cs, c)
+			}
+			sort.Strings(cs)
+			return bad("keys "+strings.Join(cs, "+"), "returned %q, present keys matching the pattern are %q", got, w.Keys)
 		}
 	}
 	return "", ""
@@ -424,6 +465,11 @@ func (o Op) Target() string {
 
 // Observe reads the full observable state (Get of every key + ListKeys *) and compares with the model.
 func (d *Driver) Observe(o Op, m *Model, keys []string) (clause, detail string) {
+	defer func() {
+		if r := recover(); r != nil {
+			clause, detail = d.Name+" "+o.Target()+":then panic", fmt.Sprintf("%s: reading the state back after %v panicked: %v", d.Name, o, r)
+		}
+	}()
 	ctx := context.Background()
 	for _, k := range keys {
 		r, err := d.St.Get(ctx, k)
